@@ -572,7 +572,7 @@ pub fn property() -> Property {
     Property {
         id: "C10",
         level: "exploration",
-        rule: "part queries: the C09 generator restricted to non-monotone Horn KBs (wrong-value conclusions, side assignments, dead ends, cycles) x stores x goals x {DFS,BFS,Iterative} x max_depth 0..6 x max_solutions {1,3}; oracle: whenever the query is reported not provable, get_all_facts() after equals before (deep equality); leaked undo frames are reported as labels. Non-trivial: the query was not provable, some rule's condition was true on the initial facts (so the attempt executed something) and the KB has a wrong-value rule / dead end / And of two derivable sub-goals. Part frames: sequences over {begin, commit, rollback, set(k,v), set_nested(k.f,v), remove(k)} on 3 keys x 2 values starting from k1 scalar, k2 object, k3 absent: random of length 1..10 and exhaustive enumeration of all sequences of length 5 (quick) / 6 (thorough) over a 15-letter alphabet; oracle: stack of full deep snapshots (begin pushes, rollback pops and restores, commit pops and discards; both are no-ops on an empty stack), compared with get_all_facts() and snapshot() after every operation, plus the open-frame count (hook). Non-trivial: >= 2 nested frames with a write and a commit/rollback; distinct by operation sequence. Part frames-deep: the same oracle over set_nested paths of one, two and three segments (k2.g.h) on roots that are objects nested two levels deep, scalars or absent, with writes that replace a sub-object by a scalar (a later deeper write must fail and change nothing) and that re-create the object, plus set/remove of FLAT top-level keys whose names extend another key (\"k2.f\" next to the object k2): random of length 2..10 and exhaustive over a 12-letter alphabet to length 5 / 6; non-trivial: a three-segment write inside a frame that is rolled back, or a failed set_nested inside a frame followed by a rollback. Part queries, drawn last: 1 case in 3 has rules with an action that fails at run time (Missing.poke(), before / between / after the assignments); 1 case in 4 is asked inside a caller-owned undo frame that holds a change of the caller's (facts at the call = facts after a 'not provable'; the caller's rollback then restores the state at the beginning of their frame); 1 case in 4 has rules that are disabled (each with probability 1/3).",
+        rule: "part queries: the C09 generator restricted to non-monotone Horn KBs (wrong-value conclusions, side assignments, dead ends, cycles) x stores x goals x {DFS,BFS,Iterative} x max_depth 0..6 x max_solutions {1,3}; oracle: whenever the query is reported not provable, get_all_facts() after equals before (deep equality); leaked undo frames are reported as labels. Non-trivial: the query was not provable, some rule's condition was true on the initial facts (so the attempt executed something) and the KB has a wrong-value rule / dead end / And of two derivable sub-goals. Part frames: sequences over {begin, commit, rollback, set(k,v), set_nested(k.f,v), remove(k)} on 3 keys x 2 values starting from k1 scalar, k2 object, k3 absent: random of length 1..10 and exhaustive enumeration of all sequences of length 5 (quick) / 6 (thorough) over a 15-letter alphabet; oracle: stack of full deep snapshots (begin pushes, rollback pops and restores, commit pops and discards; both are no-ops on an empty stack), compared with get_all_facts() and snapshot() after every operation, plus the open-frame count (hook). Non-trivial: >= 2 nested frames with a write and a commit/rollback; distinct by operation sequence. Part frames-deep: the same oracle over set_nested paths of one, two and three segments (k2.g.h) on roots that are objects nested two levels deep, scalars or absent, with writes that replace a sub-object by a scalar (a later deeper write must fail and change nothing) and that re-create the object, plus set/remove of FLAT top-level keys whose names extend another key (\"k2.f\" next to the object k2): random of length 2..10 and exhaustive over a 12-letter alphabet to length 5 / 6; non-trivial: a three-segment write inside a frame that is rolled back, or a failed set_nested inside a frame followed by a rollback. Part queries, drawn last: 1 case in 3 has rules with an action that fails at run time (Missing.poke(), before / between / after the assignments); 1 case in 4 is asked inside a caller-owned undo frame that holds a change of the caller's (facts at the call = facts after a 'not provable'; the caller's rollback then restores the state at the beginning of their frame); 1 case in 4 has rules that are disabled (each with probability 1/3). Parts frames*: 1 case in 4 writes floats (0.0 / -0.0) instead of integers; snapshots are compared bit-exactly (by their Debug text).",
         assumptions: vec!["engine panics/errors during a query are counted, not judged".into()],
         parts: vec![
             Part { name: "queries", run: run_a, quick: Budget::Random { cases: 300_000, bytes: 300 }, thorough: Budget::Random { cases: 10_000_000, bytes: 300 }, min_nontrivial_pct: 15 },
